@@ -383,6 +383,108 @@ Proof.
     rewrite E. reflexivity.
 Qed.
 
+(* ---------------------------------------------------------------- I4: a wake-up is in flight *)
+(* a free PriorityLock with waiters has a waiter whose future is done (woken with a
+   result, or cancelled: in both cases its task has been scheduled and will take the lock
+   or pass the wake-up on in its finally clause) *)
+Definition wf4_at (s : st) (l : nat) : Prop :=
+  lkind_ (getl s l) = LPrio -> llocked (getl s l) = false -> objs s l <> [] ->
+  exists f, In f (objs s l) /\ fdone s f = true.
+Definition WF4 (s : st) : Prop := forall l, wf4_at s l.
+
+Lemma wf4_at_chg W s s' l : chg W s s' -> wf4_at s l -> wf4_at s' l.
+Proof.
+  intros C H Hk Hl Hne. destruct (c_lock C l) as (Ek & _ & _ & El). rewrite Ek in Hk.
+  rewrite (chg_objs l C) in *. destruct El as [El|El]; [|congruence]. rewrite El in Hl.
+  destruct (H Hk Hl Hne) as (f & Hf & Hd). exists f. split; auto. apply (c_done C); auto.
+Qed.
+Lemma WF4_chg W s s' : chg W s s' -> WF4 s -> WF4 s'.
+Proof. intros C H l. eapply wf4_at_chg; eauto. Qed.
+
+Lemma upd_fdone s l lk' t oh g : fdone (upd s l lk' t oh) g = fdone s g.
+Proof. unfold upd. destruct oh; reflexivity. Qed.
+
+Lemma wf4_at_upd_other s l lk' t oh l' : l' <> l -> wf4_at s l' -> wf4_at (upd s l lk' t oh) l'.
+Proof.
+  intros Hne H. unfold wf4_at, objs in *. rewrite upd_getl.
+  apply not_eq_sym, Nat.eqb_neq in Hne. rewrite Hne. simpl.
+  intros Hk Hl Ho. destruct (H Hk Hl Ho) as (f & Hf & Hd). exists f. split; auto. now rewrite upd_fdone.
+Qed.
+
+Lemma WF4_upd s l lk' t oh : WF4 s -> wf4_at (upd s l lk' t oh) l -> WF4 (upd s l lk' t oh).
+Proof.
+  intros H Hl l0. destruct (Nat.eq_dec l0 l) as [->|Hne]; auto. apply wf4_at_upd_other; auto.
+Qed.
+
+Lemma wf4_at_locked s l : llocked (getl s l) = true -> wf4_at s l.
+Proof. intros H _ Hl. congruence. Qed.
+
+Lemma wake_locks s l : locks (wake_up_first_p s l) = locks s.
+Proof.
+  unfold wake_up_first_p. destruct (arr (lpq (getl s l))); auto.
+  match goal with |- context [if ?b then _ else _] => destruct b end; auto.
+  match goal with |- context [if ?b then _ else _] => destruct b end; auto.
+  apply fut_finish_proj.
+Qed.
+
+Lemma getf_congr s1 s2 f : futs s1 = futs s2 -> getf s1 f = getf s2 f.
+Proof. intros E. unfold getf. now rewrite E. Qed.
+
+Lemma fut_finish_done s f x :
+  f < length (futs s) -> x <> FPending -> fdone (fst (fut_finish s f x)) f = true.
+Proof.
+  intros Hr Hx. unfold fut_finish. destruct (fstate_ (getf s f)) eqn:E; cbn [fst];
+    try (unfold fdone; rewrite E; reflexivity).
+  unfold schedule_callbacks.
+  match goal with |- context [fold_left ?F ?L ?S] => destruct (fold_soon_proj f L S) as (_ & B & _) end.
+  unfold fdone. rewrite (getf_congr _ _ f B).
+  set (s1 := setf s f (getf s f <| fstate_ := x |>)).
+  assert (L1 : length (futs s1) = length (futs s)) by (unfold s1, setf; cbn; apply set_nth_length).
+  rewrite getf_setf_same by (rewrite L1; exact Hr). cbn.
+  rewrite nth_set_nth_same by exact Hr. cbn. destruct x; auto; congruence.
+Qed.
+
+Lemma wake_done s l :
+  Inv s -> objs s l <> [] -> exists f, In f (objs s l) /\ fdone (wake_up_first_p s l) f = true.
+Proof.
+  intros I Hne. unfold wake_up_first_p. unfold objs, pq_objs in Hne.
+  destruct (arr (lpq (getl s l))) as [|head rest] eqn:Ea; [contradiction|].
+  assert (Hh : In (Z.to_nat (eobj head)) (objs s l)).
+  { unfold objs, pq_objs. rewrite Ea. simpl. now left. }
+  destruct (existsb _ _) eqn:Ex.
+  - apply existsb_exists in Ex as (f & Hf & Hw). exists f. split; [exact Hf|].
+    unfold fdone. destruct (fstate_ (getf s f)); auto; discriminate.
+  - destruct (fdone s (Z.to_nat (eobj head))) eqn:Ed; [eauto|].
+    exists (Z.to_nat (eobj head)). split; auto. apply fut_finish_done; [|discriminate].
+    apply (iD0 I). now exists l.
+Qed.
+
+Lemma wake_wf4_at s l : Inv s -> wf4_at (wake_up_first_p s l) l.
+Proof.
+  intros I. unfold wf4_at, objs, getl. rewrite wake_locks. intros _ _ Hne.
+  apply (wake_done s l I Hne).
+Qed.
+
+Lemma WF4_wake s l :
+  Inv s -> (forall l', l' <> l -> wf4_at s l') -> WF4 (wake_up_first_p s l).
+Proof.
+  intros I H l0. destruct (Nat.eq_dec l0 l) as [->|Hne]; [now apply wake_wf4_at|].
+  eapply wf4_at_chg; [apply chg_wake; exact I|auto].
+Qed.
+
+Lemma WF4_release_p s t l : Inv s -> WF4 s -> WF4 (fst (release_p s t l)).
+Proof.
+  intros I H. unfold release_p.
+  destruct (negb (llocked (getl s l))) eqn:El; [exact H|].
+  apply negb_false_iff in El. pose proof (llocked_inrange s l El) as Hl.
+  destruct (lowner (getl s l)) as [o|] eqn:Ho; [|exact H].
+  destruct (negb (Nat.eqb o t)) eqn:Eo; [exact H|].
+  apply negb_false_iff, Nat.eqb_eq in Eo. subst o.
+  cbn [fst]. rewrite (release_core_eq s l t Hl).
+  apply WF4_wake; [now apply Inv_release_core|].
+  intros l' Hne. apply wf4_at_upd_other; auto.
+Qed.
+
 (* ---------------------------------------------------------------- re-keying a waiter *)
 Lemma perm_nil_objs (q : pq Q) : pq_objs q = [] -> arr q = [].
 Proof. unfold pq_objs. destruct (arr q); [auto|discriminate]. Qed.
@@ -437,12 +539,12 @@ Qed.
 
 (* a lock step that also keeps every queued future queued *)
 Definition pstep (s s' : st) : Prop :=
-  lstep s s' /\ (forall l f, In f (objs s l) -> In f (objs s' l)).
+  lstep s s' /\ (forall l f, In f (objs s l) -> In f (objs s' l)) /\ (WF4 s -> WF4 s').
 
 Lemma pstep_refl s : Inv s -> pstep s s.
 Proof. intros I. split; [now apply lstep_refl|auto]. Qed.
 Lemma pstep_trans s1 s2 s3 : pstep s1 s2 -> pstep s2 s3 -> pstep s1 s3.
-Proof. intros [A1 A2] [B1 B2]. split; [eapply lstep_trans; eauto|auto]. Qed.
+Proof. intros (A1 & A2 & A3) (B1 & B2 & B3). split; [eapply lstep_trans; eauto|auto]. Qed.
 
 Lemma pstep_core_eq s s' :
   Inv s -> locks s' = locks s -> tasks s' = tasks s -> futs s' = futs s -> events s' = events s ->
@@ -451,9 +553,10 @@ Proof.
   intros I El Et Ef Ee Ec Eh.
   assert (C : chg (fun _ => False) s s') by (apply chg_core_eq; auto).
   assert (I' : Inv s') by (eapply Inv_chg; eauto; tauto).
-  split.
+  split; [|split].
   - eapply lstep_chg; eauto; try congruence. intros t. unfold tframes, gett. now rewrite Et.
   - intros l f. unfold objs, getl. now rewrite El.
+  - eapply WF4_chg; eauto.
 Qed.
 
 Lemma pstep_propagate_task fuel : forall s t, Inv s -> pstep s (propagate_task fuel s t).
@@ -474,13 +577,19 @@ Proof.
     eapply pstep_trans; [exact P1|].
     destruct (pq_resched_objs _ _ _ _ _ (iB1 I1 l) Er) as [Hq Hp].
     change (setl s1 l (getl s1 l <| lpq := q' |>)) with (upd s1 l (getl s1 l <| lpq := q' |>) 0 None).
-    pose proof (Inv_resched s1 l q' I1 Hq Hp) as I2. split.
+    pose proof (Inv_resched s1 l q' I1 Hq Hp) as I2. split; [|split].
     + apply lstep_upd; [exact I2|reflexivity|].
       intros g Hg. cbn in Hg. eapply Permutation_in; eauto.
     + intros l0 g Hg. unfold objs at 1. rewrite upd_getl.
       destruct (Nat.eqb l l0 && Nat.ltb l (length (locks s1)))%bool eqn:E; auto.
       apply andb_prop in E as [E _]. apply Nat.eqb_eq in E. subst l0. cbn.
       eapply Permutation_in; [apply Permutation_sym|]; eauto.
+    + intros H4. apply WF4_upd; auto. unfold wf4_at, objs. rewrite upd_getl, Nat.eqb_refl. simpl.
+      destruct (Nat.ltb l (length (locks s1))); [|apply (H4 l)]. cbn.
+      intros Hk Hl Hne. destruct (H4 l Hk Hl) as (g & Hg & Hd).
+      * intros E. unfold objs in E. apply Hne. apply Permutation_nil.
+        rewrite E in Hp. apply Permutation_sym. exact Hp.
+      * exists g. split; [eapply Permutation_in; [apply Permutation_sym|]; eauto|exact Hd].
 Qed.
 
 Lemma pstep_propagate_priority s t : Inv s -> pstep s (propagate_priority s t).
@@ -497,24 +606,29 @@ Definition pend (s : st) (frs : list frame) : Prop :=
 
 Definition ext (s s' : st) : Prop :=
   Inv s' /\ length (tasks s) <= length (tasks s') /\
-  (forall l, lkind_ (getl s' l) = lkind_ (getl s l)).
+  (forall l, lkind_ (getl s' l) = lkind_ (getl s l)) /\ (WF4 s -> WF4 s').
 
 Lemma ext_refl s : Inv s -> ext s s.
 Proof. intros I. split; auto. Qed.
 Lemma ext_trans s1 s2 s3 : ext s1 s2 -> ext s2 s3 -> ext s1 s3.
 Proof.
-  intros (A1 & A2 & A3) (B1 & B2 & B3). split; auto. split; [lia|].
+  intros (A1 & A2 & A3 & A4) (B1 & B2 & B3 & B4). split; auto. split; [lia|]. split; auto.
   intros l. rewrite B3. apply A3.
 Qed.
 Lemma ext_benign s s' : Inv s -> benign s s' -> ext s s'.
 Proof.
   intros I B. split; [eapply Inv_benign; eauto|]. split; [apply (benign_tasks s s' B)|].
-  intros l. apply (benign_kind s s' l B).
+  split; [intros l; apply (benign_kind s s' l B)|]. eapply WF4_chg; eauto.
 Qed.
-Lemma ext_lstep s s' : lstep s s' -> ext s s'.
+Lemma ext_lstep s s' : lstep s s' -> (WF4 s -> WF4 s') -> ext s s'.
 Proof.
-  intros L. split; [apply (ls_inv L)|]. split; [rewrite (ls_ntasks L); lia|apply (ls_kind L)].
+  intros L H4. split; [apply (ls_inv L)|]. split; [rewrite (ls_ntasks L); lia|].
+  split; [apply (ls_kind L)|exact H4].
 Qed.
+Lemma ext_kind s s' l : ext s s' -> lkind_ (getl s' l) = lkind_ (getl s l).
+Proof. intros H. apply H. Qed.
+Lemma ext_wf4 s s' : ext s s' -> WF4 s -> WF4 s'.
+Proof. intros H. apply H. Qed.
 Lemma ext_inv s s' : ext s s' -> Inv s'.
 Proof. intros H. apply H. Qed.
 
@@ -619,7 +733,8 @@ Theorem lstep_acquire_p_finish s t l f had inp :
   Inv s -> t < length (tasks s) -> In f (objs s l) -> no_frame s f ->
   (forall v, inp = RVal v -> woken s f = true) ->
   lstep s (fst (acquire_p_finish s t l f had inp)) /\
-  (forall v, inp = RVal v -> snd (acquire_p_finish s t l f had inp) = RVal 1).
+  (forall v, inp = RVal v -> snd (acquire_p_finish s t l f had inp) = RVal 1) /\
+  (WF4 s -> WF4 (fst (acquire_p_finish s t l f had inp))).
 Proof.
   intros I Ht Hf Hnf Hw.
   pose proof (objs_inrange s l f Hf) as Hl.
@@ -631,6 +746,9 @@ Proof.
             lstep s (if had then sett s2 t (gett s2 t <| twaiting := None |>) else s2)).
   { intros s2 L. destruct had; auto. eapply lstep_trans; [exact L|].
     apply lstep_sett_flags; auto. apply (ls_inv L). }
+  assert (Hfin4 : forall s2, WF4 s2 ->
+            WF4 (if had then sett s2 t (gett s2 t <| twaiting := None |>) else s2)).
+  { intros s2 H2. destruct had; auto. }
   destruct inp as [v|e].
   - (* woken with a result: the lock is free *)
     assert (Ho : lowner (getl s l) = None).
@@ -651,10 +769,11 @@ Proof.
     { destruct (upd_lk s l (take_lk s l t <| lpq := q' |> <| lwt := w |>) t (take_oh s l t))
         as [[_ E]|(Hge & _)]; [exact E|lia]. }
     rewrite E2. cbn [llocked take_lk]. cbn.
-    split; [|auto].
-    apply Hfin. apply lstep_upd; [exact I2|reflexivity|].
-    intros g Hg. cbn in Hg. destruct (qwf_remove _ _ _ _ (iB1 I l) Er) as (_ & Hp & _).
-    eapply Permutation_in; [apply Permutation_sym; exact Hp|]. now right.
+    split; [|split; [auto|]].
+    + apply Hfin. apply lstep_upd; [exact I2|reflexivity|].
+      intros g Hg. cbn in Hg. destruct (qwf_remove _ _ _ _ (iB1 I l) Er) as (_ & Hp & _).
+      eapply Permutation_in; [apply Permutation_sym; exact Hp|]. now right.
+    + intros H4. apply Hfin4. apply WF4_upd; auto. apply wf4_at_locked. fold s2. rewrite E2. reflexivity.
   - (* cancelled / interrupted: leave the queue, pass the wake-up on if the lock is free *)
     rewrite Er.
     set (w := filter (fun pr : nat * nat => negb (Nat.eqb (fst pr) f)) (lwt (getl s l))).
@@ -670,15 +789,20 @@ Proof.
     { apply lstep_upd; [exact I2|reflexivity|].
       intros g Hg. cbn in Hg. destruct (qwf_remove _ _ _ _ (iB1 I l) Er) as (_ & Hp & _).
       eapply Permutation_in; [apply Permutation_sym; exact Hp|]. now right. }
-    split; [|intros; discriminate]. cbn [fst].
-    apply Hfin. rewrite E2. cbn [llocked]. 
-    change (llocked (getl s l <| lpq := q' |> <| lwt := w |>)) with (llocked (getl s l)).
-    destruct (llocked (getl s l)) eqn:Elk; [exact L2|].
-    eapply lstep_trans; [exact L2|]. apply lstep_wake; [exact I2|].
-    rewrite E2. change (lowner (getl s l <| lpq := q' |> <| lwt := w |>)) with (lowner (getl s l)).
-    destruct (lowner (getl s l)) eqn:Ho; auto.
-    assert (lowner (getl s l) <> None) as Hn by congruence.
-    apply (iA1 I l Hk) in Hn. congruence.
+    split; [|split; [intros; discriminate|]]; cbn [fst].
+    + apply Hfin. rewrite E2. cbn [llocked]. 
+      change (llocked (getl s l <| lpq := q' |> <| lwt := w |>)) with (llocked (getl s l)).
+      destruct (llocked (getl s l)) eqn:Elk; [exact L2|].
+      eapply lstep_trans; [exact L2|]. apply lstep_wake; [exact I2|].
+      rewrite E2. change (lowner (getl s l <| lpq := q' |> <| lwt := w |>)) with (lowner (getl s l)).
+      destruct (lowner (getl s l)) eqn:Ho; auto.
+      assert (lowner (getl s l) <> None) as Hn by congruence.
+      apply (iA1 I l Hk) in Hn. congruence.
+    + intros H4. apply Hfin4. rewrite E2. cbn [llocked].
+      change (llocked (getl s l <| lpq := q' |> <| lwt := w |>)) with (llocked (getl s l)).
+      destruct (llocked (getl s l)) eqn:Elk.
+      * apply WF4_upd; auto. apply wf4_at_locked. fold s2. rewrite E2. exact Elk.
+      * apply WF4_wake; [exact I2|]. intros l' Hne. apply wf4_at_upd_other; auto.
 Qed.
 
 (* ---------------------------------------------------------------- joining the queue *)
@@ -746,10 +870,14 @@ Proof.
     rewrite (take_lock_eq s l t Ho). cbn [fst snd]. split; [|intros; discriminate].
     assert (Hemp : objs s l = []).
     { unfold objs, pq_objs. destruct (arr (lpq (getl s l))); [reflexivity|discriminate]. }
-    apply ext_lstep. apply lstep_upd.
-    + apply Inv_take; auto. intros f. rewrite Hemp. intros [].
-    + reflexivity.
-    + intros g Hg. exact Hg.
+    apply ext_lstep.
+    + apply lstep_upd; [|reflexivity|intros g Hg; exact Hg].
+      apply Inv_take; auto. intros f. rewrite Hemp. intros [].
+    + intros H4. apply WF4_upd; auto.
+      destruct (upd_lk s l (take_lk s l t) t (take_oh s l t)) as [[_ E]|(_ & E & _)].
+      * apply wf4_at_locked. rewrite E. reflexivity.
+      * unfold wf4_at, objs. rewrite E. intros Hk' Hl' Hne'.
+        destruct (H4 l Hk' Hl' Hne') as (g & Hg & Hd). exists g. split; auto.
   - (* queue up *)
     assert (Hl : l < length (locks s)).
     { destruct (Nat.lt_ge_cases l (length (locks s))); auto.
@@ -799,17 +927,28 @@ Proof.
     set (s4 := match lowner (getl s3 l) with Some o => propagate_priority s3 o | None => s3 end).
     assert (P4 : pstep s3 s4).
     { unfold s4. destruct (lowner (getl s3 l)); [now apply pstep_propagate_priority|now apply pstep_refl]. }
-    destruct P4 as [L4 O4]. pose proof (ls_inv L4) as I4.
+    destruct P4 as (L4 & O4 & W4). pose proof (ls_inv L4) as I4.
     set (s5 := setf s4 f (getf s4 f <| fblock := true |>)).
     assert (B5 : benign s4 s5) by (apply chg_setf_flag; reflexivity).
     pose proof (Inv_benign s4 s5 B5 I4) as I5.
     cbn [fst snd]. split.
-    + split; [exact I5|]. split.
+    + split; [exact I5|]. split; [|split].
       * change (tasks s5) with (tasks s4). rewrite (ls_ntasks L4).
         change (length (tasks s3)) with (length (tasks (upd s2 l (getl s3 l) 0 None))).
         pose proof (benign_tasks s s2 B2). unfold s3, upd. cbn. lia.
       * intros l0. change (getl s5 l0) with (getl s4 l0). rewrite (ls_kind L4).
         unfold s3. rewrite upd_kind by reflexivity. apply (benign_kind s s2 l0 B2).
+      * intros H4. apply (WF4_chg _ _ _ B5). apply W4.
+        pose proof (WF4_chg _ _ _ B2 H4) as H42.
+        apply WF4_upd; auto. fold s3. intros Hk3 Hl3 Hne3.
+        rewrite E3 in Hl3. cbn in Hl3. rewrite Hl2 in Hl3.
+        assert (Hne : objs s2 l <> []).
+        { unfold objs, pq_objs. rewrite Hl2. rewrite Hl3 in Efast. simpl in Efast.
+          destruct (arr (lpq (getl s l))); [discriminate|discriminate]. }
+        destruct (H42 l) as (g & Hg & Hd); auto; [now rewrite Hl2|now rewrite Hl2|].
+        exists g. split.
+        -- unfold objs. rewrite E3. cbn. eapply Permutation_in; [apply Permutation_sym, pq_objs_add|]. now right.
+        -- unfold s3. now rewrite upd_fdone.
     + intros y frs Hy. inversion Hy; subst y frs. split; [|split].
       * right. exists l, f, (is_prio_task s t), []. split; [reflexivity|apply no_acq_nil].
       * intros l0 f0 had0 [H|[H|[]]]; [discriminate|]. inversion H; subst l0 f0 had0. split.
